@@ -3,12 +3,14 @@ from ..mir import Callee, Resolver, fmt, literals, walk, strip_sites as s
 from ..effects import assigns, mut_calls
 from ..kernel import Kernel, Poly, Block, Aff, symaff, OutOfFragment, kernel_return
 from . import prune
+from . import helpers
 from .prune import is_call
 from .c16 import obligation
 
 LEVEL = 'proof'
 TECHNIQUE = 'static analysis: MIR provenance/guard rules for the graft structure + polynomial normal forms of the rewrite kernels (nothing executed)'
 RULES = {
+    'C02.R6': helpers.RULE_TEXT,
     'C02.R1': 'graft structure: worklist starts at (operand root, terminal); every operand edge is copied with its own label under the current copy; the new node is paired with that edge\'s target; nothing else is inserted',
     'C02.R2': 'role consistency: update_terminal exactly on the isleaf outcome of the operand node whose function is passed, update_decision otherwise',
     'C02.R3': 'kernel identities: update_decision b\'-A\'x == b-A(Mx+c); update_terminal == original∘context; both composition schemas agree; apply_func_at_node stores aff∘old',
@@ -16,7 +18,7 @@ RULES = {
     'C02.R5': 'right operand unchanged: taken by shared reference, never written through; the only interior-mutable field (polytope_cache) is scratch, cleared before use and before return',
 }
 WITNESSES = ['C02OperandBehindSharedRef', 'C02ComposeBorrowsOperand', 'C02ScratchCacheIsPrivate']  # thorough tier: compile_fail witnesses in /verif/witness
-FLOORS = {'C02.R1': 4, 'C02.R2': 4, 'C02.R3': 7, 'C02.R4': 7, 'C02.R5': 6}
+FLOORS = {'C02.R6': 6, 'C02.R1': 4, 'C02.R2': 4, 'C02.R3': 7, 'C02.R4': 7, 'C02.R5': 6}
 EXPLANATION = ('R1-R3 give a node-by-node simulation: the copy of g under terminal t routes x exactly as g routes T_t(x) and returns g(T_t(x)); missing children of the '
                'operand are missing in the copy (definedness). Surviving nodes keep their indices because the only writes are in-place updates of terminals and Slab insertions.')
 DOES_NOT_DECIDE = 'floating-point rounding near a hyperplane'
@@ -24,6 +26,7 @@ TRUSTED = ['semantics of ndarray dot/+/-/neg as interpreted in affcheck/kernel.p
 
 
 def run(ctx):
+    helpers.run_for(ctx)
     F = ctx.facts
     g = ctx.body('C02.R1', 'AffTree::generic_composition_inplace')
     if g is not None:
